@@ -299,6 +299,10 @@ func reachableSet(c Case) map[int]bool {
 
 var hazardNodes = []fsx.Node{
 	{Path: "ln-file", Kind: "symlink", Target: "main.tf"},
+	// reads as inside the package, leaves it by way of an in-package link to "."
+	{Path: "zz-dot", Kind: "symlink", Target: "."},
+	{Path: "ln-via-dot-out", Kind: "symlink", Target: "zz-dot/../../canary"},
+	{Path: "sub/ln-via-dot-root", Kind: "symlink", Target: "../zz-dot/.."},
 	{Path: "sub/ln-up-file", Kind: "symlink", Target: "../main.tf"},
 	{Path: "ln-abs-in-pkg", Kind: "symlink", Target: "{T}/main.tf"},
 	{Path: "ln-abs-dir-in-pkg", Kind: "symlink", Target: "{T}/sub"},
